@@ -6,6 +6,10 @@
         kind 0  ProjMatrix rows on small turbo meshes (1-3 D, rotations, selections, polarity)
         kind 1  ProjMatrix rows on small standard meshes with dyadic vertices
         kind 2  PrecisionOp::evalDirect (matrix-free) / PrecisionOpCs::getQ().v / model Lambda.P(S).Lambda.v, S and Lambda harvested exactly
+        kind 6  finite-element assembly of the shift operator (model, exact) vs the harvested S, TildeC, Lambda entry by entry
+        kind 7  Markov coefficients of the Matern structure (binomial coefficients) vs getCoeffs()
+        kind 8  the kriging system in the model (A from the model's projection, Q = Lambda P(S) Lambda exact, solution with
+                certificate) vs the implementation's Cholesky and conjugate-gradient solutions, tolerance by the conditioning
   property on impl (independent of the model): rows aligned with the samples, empty outside, weights >= 0 summing to one and reproducing
         affine functions; Q symmetric and positive definite; both operator forms apply identically; diagonal extraction;
         kind 0 alone  a selection masking every mesh: no sample may get weights (key turbo-proj:selection-masks-every-mesh)
@@ -224,7 +228,7 @@ def gen_standard_points(rng, sm, m, trailing_out):
                           (ap[ms[0]][d] / 2 + ap[ms[1]][d] / 4 + ap[ms[2]][d] / 4)) for d in range(n)])
     return pts
 
-def gen_cov(rng, n):
+def gen_cov(rng, n, nostat=False):
     nu = {1: [F(1, 2), F(3, 2)], 2: [F(1), F(2)], 3: [F(1, 2), F(3, 2)]}[n]
     param = rng.choice(nu)
     sill = rng.choice([F(1), F(2), F(1, 2), F(5, 4)])
@@ -232,8 +236,15 @@ def gen_cov(rng, n):
     else: ranges = [rng.choice([F(2), F(3), F(4), F(3, 2), F(6)]) for _ in range(n)]
     ang = []
     if n >= 2 and rng.random() < .5: ang = [F(rng.choice([30, 45, 90, 120, 17]))] + ([F(0)] * (n - 1) if n == 3 else [F(0)])
-    return {'param': param, 'sill': sill, 'ranges': ranges, 'angles': ang}
-def cov_sx(cv): return [dy(cv['param']), dy(cv['sill']), [dy(x) for x in cv['ranges']], [dy(x) for x in cv['angles']]]
+    cv = {'param': param, 'sill': sill, 'ranges': ranges, 'angles': ang, 'spiral': None}
+    if n == 2 and nostat:     # non-stationary anisotropy angle: FunctionalSpirale(a, b, c, d, sx, sy)
+        cv['ranges'] = [rng.choice([F(2), F(3)]), rng.choice([F(4), F(6)])]
+        cv['spiral'] = [F(0), F(-3, 2), F(1), F(1), F(rng.randint(-8, 8), 2), F(rng.randint(-8, 8), 2)]
+    return cv
+def cov_sx(cv):
+    out = [dy(cv['param']), dy(cv['sill']), [dy(x) for x in cv['ranges']], [dy(x) for x in cv['angles']]]
+    if cv.get('spiral'): out.append([dy(x) for x in cv['spiral']])
+    return out
 
 # ----------------------------------------------------------------------------- comparisons
 def row_dict(entries, conv):
@@ -310,8 +321,10 @@ def run(ctx):
     check_standard(ctx, exe, runner, viol)
     check_degenerate_selection(ctx, exe, viol)
     check_from_turbo(ctx, exe, hv, viol)
+    check_convolution(ctx, exe, runner, viol)
+    check_multi(ctx, exe, hv, viol)
     check_operators(ctx, exe, runner, hv, viol)
-    check_solvers(ctx, exe, hv, viol)
+    check_solvers(ctx, exe, runner, hv, viol)
 
     ctx.cov['disagreements'] = st['ndis']
     ctx.cov['rule'] = ('evaluation = one (mesh, query point) row of a projection matrix / one (mesh, Matern model, vector) operator application / '
@@ -326,7 +339,10 @@ def run(ctx):
     ctx.assumptions = [
         'corpus/C15.sx keeps the witnesses of the repaired defects (row counter of MeshETurbo::resetProjMatrix, forced dimensions of '
         'MeshEStandard::resetProjMatrix); PrecisionOp::addToDest on a non-zero destination and krigingSPDENew in both modes are exercised by every operator / solver case',
-        'S (ShiftOpCs) and Lambda are harvested from the library as exact doubles: the finite-element assembly of S and its positivity are not proved',
+        'the finite-element assembly of S is modelled for constant anisotropy and full-dimensional simplices (turbo and standard meshings); the square roots '
+        '(sqrt(1/det hh), TildeC^-1/2, Lambda = sqrt(TildeC correc / sill)) are evaluated in floating point by the correspondence from the model\'s exact det hh and TildeC; '
+        'the theorems on S and Q hold for any value of these factors; non-stationary models, meshes on a variety / sphere are not modelled',
+        'the operator applications (kind 2) and the kriging system (kind 8) use S and Lambda harvested as exact doubles',
         'Chebyshev approximations (powers -1, -1/2, log of the operator), Eigen sparse Cholesky and conjugate gradient are external: '
         'the clauses "Cholesky and CG agree" and "every solve satisfies its system" are runtime evidence (residuals recomputed from the harvested operators)',
         'points closer than 1e-9 (barycentric / cell units) to a decision threshold are excluded; within 1e-6 of a simplex face the stored weights are '
@@ -618,6 +634,149 @@ def check_from_turbo(ctx, exe, hv, viol):
             if interior and not rows_close(w, rs[k], 1e-9):
                 viol('standard-from-turbo:row', 'sample %d: turbo row %s, standard row %s' % (k, fmt_row(w), fmt_row(rs[k])), rep); break
 
+# ----------------------------------------------------------------------------- ProjConvolution
+def check_convolution(ctx, exe, runner, viol):
+    """ProjConvolution on small seismic grids: index shifts, mesh2point / point2mesh adjoint, add-variants accumulate; model kind 10"""
+    rng = ctx.rng
+    ncase = 14 if ctx.quick() else 120
+    cases = []; short = []
+    for k in range(ncase):
+        nd = rng.choice([2, 3])
+        nx = [rng.randint(2, 4) for _ in range(nd - 1)] + [rng.randint(3, 6)]
+        dx = [rng.choice([F(1), F(1, 2), F(2)]) for _ in range(nd)]
+        x0 = [F(rng.randint(-8, 8), 2) for _ in range(nd)]
+        size = rng.choice([1, 3, 3, 5])
+        if k % 7 == 6: nx[-1] = rng.randint(1, 2); size = 5     # fewer seismic samples than the half-length of the wavelet
+        conv = [F(rng.randint(-8, 8), 8) for _ in range(size)]
+        nres = [] if rng.random() < .4 else [rng.randint(2, 4) for _ in range(nd - 1)]
+        gext = [] if rng.random() < .5 else [F(rng.randint(0, 4), 2) for _ in range(nd - 1)]
+        v = [dy(F(rng.randint(-16, 16), 4)) for _ in range(7)]; y = [dy(F(rng.randint(-16, 16), 4)) for _ in range(5)]; d = [dy(F(rng.randint(-16, 16), 4)) for _ in range(3)]
+        c = [5, nx, [dy(x) for x in dx], [dy(x) for x in x0], [dy(x) for x in conv], nres, [dy(x) for x in gext], v, y, d]
+        (short if k % 7 == 6 else cases).append(c)
+        ctx.dist('conv_%dd' % nd)
+    short = [c for c in load_corpus(ctx) if c[0] == 5] + short
+    results = []
+    cf = write_cases(ctx, 'conv', cases)
+    rc, impl = run_impl(ctx, exe, cf)
+    results = [(c, impl[i] if i < len(impl) else None) for i, c in enumerate(cases)]
+    for k, c in enumerate(short):          # each alone: the pinned code may read outside its arrays
+        cf1 = write_cases(ctx, 'convshort%d' % k, [c]); rc1, r1 = run_impl(ctx, exe, cf1, timeout=120)
+        results.append((c, r1[0] if r1 else None))
+    mc = []; mi = []
+    for k, (c, ii) in enumerate(results):
+        rep = {'case': sx_str(c), 'how': 'harness/C15.cpp kind 5'}
+        if ii is None or ii[0] == -997:
+            if c[1][-1] < len(c[4]):     # same root as the wrong shifts: they are computed from the centre of a grid too short for the wavelet
+                viol('proj-convolution:shift-vector', 'ProjConvolution with nz = %d seismic samples and a wavelet of length %d: the harness crashes '
+                     '(index shifts computed outside the resolution grid)' % (c[1][-1], len(c[4])), rep)
+            else:
+                viol('crash:proj-convolution', 'ProjConvolution: the harness produced no answer (crash), nz = %d, wavelet length %d' % (c[1][-1], len(c[4])), rep)
+            continue
+        if ii[0] == -1: continue         # refused by the constructor
+        nap, npt, sh, nxR, dxR, x0R, v, y, m2p, p2m, d1, a1, d2, a2 = ii
+        size = len(c[4]); sliceR = math.prod(nxR)
+        ctx.count(sx_str(c), True)
+        if list(sh) != [j * sliceR for j in range(size)]:
+            viol('proj-convolution:shift-vector', 'the index shifts of the vertical convolution are %s instead of %s (nz = %d, wavelet length %d)' %
+                 (sh, [j * sliceR for j in range(size)], c[1][-1], size), rep); continue
+        fv = lambda l: [float(undy(x)) if undy(x) is not None else float('nan') for x in l]
+        vv, yy, mm, pp = fv(v), fv(y), fv(m2p), fv(p2m)
+        lhs = sum(a * b for a, b in zip(mm, yy)); rhs = sum(a * b for a, b in zip(vv, pp))
+        if not abs(lhs - rhs) <= 1e-10 * (1 + abs(lhs)):
+            viol('proj-convolution:not-adjoint', '<A v, y> = %.17g but <v, A\'y> = %.17g' % (lhs, rhs), rep)
+        w1 = [a + b for a, b in zip(fv(d1), mm)]; w2 = [a + b for a, b in zip(fv(d2), pp)]
+        e1 = max(abs(a - b) for a, b in zip(fv(a1), w1)); e2 = max(abs(a - b) for a, b in zip(fv(a2), w2))
+        if e1 > 1e-10 or e2 > 1e-10:
+            viol('proj-convolution:add-overwrites-destination', 'ProjConvolution::addMesh2point / addPoint2mesh do not add to the destination '
+                 '(differences %.3g, %.3g from destination + result)' % (e1, e2), rep)
+        # model case: horizontal seismic nodes as points on the resolution turbo meshing
+        nd = len(c[1]); nxs = c[1][:-1]; dxs = [undy(x) for x in c[2]][:-1]; x0s = [undy(x) for x in c[3]][:-1]
+        pts = [[x0s[d] + t[d] * dxs[d] for d in range(nd - 1)] for t in [tt[::-1] for tt in itertools.product(*[range(n_) for n_ in nxs][::-1])]]
+        mc.append([10, list(nxR), dxR, x0R, [[dy(x) for x in p] for p in pts], c[1][-1], c[4], v, y, d1, d2]); mi.append((c, mm, pp, sh, fv(a1), fv(a2)))
+    if runner is None or not mc: return
+    mf = write_cases(ctx, 'convmodel', mc)
+    rc_m, mres = run_model(ctx, runner, mf)
+    if len(mres) != len(mc): print('ERROR: model runner returned %d results for %d convolution cases' % (len(mres), len(mc))); sys.exit(3)
+    for (c, mm, pp, sh, a1f, a2f), r in zip(mi, mres):
+        if r and r[0] == -999: print('ERROR: model rejected a convolution case'); sys.exit(3)
+        msh, mm2, mp2 = r[0], [float(unq(x)) for x in r[1]], [float(unq(x)) for x in r[2]]
+        sc = 1 + max([abs(x) for x in mm2 + mp2] + [0.])
+        if list(msh) != list(sh) or len(mm2) != len(mm) or len(mp2) != len(pp) or \
+           max(abs(a - b) for a, b in zip(mm, mm2)) > 1e-10 * sc or max(abs(a - b) for a, b in zip(pp, mp2)) > 1e-10 * sc or \
+           max(abs(a - float(unq(b))) for a, b in zip(a1f, r[4])) > 1e-10 * sc or max(abs(a - float(unq(b))) for a, b in zip(a2f, r[5])) > 1e-10 * sc:
+            viol('model-drift:proj-convolution', 'impl and model differ on ProjConvolution (shifts %s / %s): correspondence coq/C15/ModelConv.v no longer checks' % (sh, msh),
+                 {'case': sx_str(c)}, found=False)
+        ctx.sample({'kind': 'convolution', 'shifts': list(sh)}, maxn=16)
+
+# ----------------------------------------------------------------------------- ProjMulti
+def check_multi(ctx, exe, hv, viol):
+    """ProjMulti on 2 x 2 blocks of ProjMatrix (one block possibly absent): mesh2point / point2mesh are the blockwise sums,
+    they are adjoint, and the add variants accumulate"""
+    rng = ctx.rng
+    ncase = 12 if ctx.quick() else 100
+    specs = []
+    for _ in range(ncase):
+        nd = rng.choice([1, 2, 2, 3])
+        tA = gen_turbo(rng, ndim=nd, maxn=4, allow_sel=False)
+        # second meshing on the same domain: refined twice, other polarity (so that the samples fall in both)
+        tB = dict(tA); tB['nx'] = [2 * k - 1 for k in tA['nx']]; tB['dx'] = [x / 2 for x in tA['dx']]; tB['pol'] = not tA['pol']
+        specs.append((tA, tB))
+        for t in specs[-1]:
+            if t['ang']: hv.ask(t['n'], t['ang'])
+    hv.run(ctx, exe)
+    cases = []
+    for tA, tB in specs:
+        MA = turbo_M(tA, hv)
+        pA = [point_of_u(tA, MA, gen_point_u(rng, tA, 'inside')) for _ in range(rng.randint(2, 4))]
+        pB = [point_of_u(tA, MA, gen_point_u(rng, tA, rng.choice(['inside', 'any']))) for _ in range(rng.randint(2, 4))]
+        vec = lambda k: [dy(F(rng.randint(-16, 16), 4)) for _ in range(k)]
+        cases.append([11, turbo_sx(tA, hv), turbo_sx(tB, hv), [[dy(x) for x in p] for p in pA], [[dy(x) for x in p] for p in pB],
+                      rng.choice([0, 0, 1, 2]), vec(7), vec(5), vec(3), vec(4)])
+        ctx.dist('multi_%dd' % tA['n'])
+    cf = write_cases(ctx, 'multi', cases)
+    rc, impl = run_impl(ctx, exe, cf)
+    for i, c in enumerate(cases):
+        ii = impl[i] if i < len(impl) else None
+        rep = {'case': sx_str(c), 'how': 'harness/C15.cpp kind 11'}
+        if ii is None or ii[0] == -997:
+            viol('crash:proj-multi', 'ProjMulti: the harness produced no answer (crash)', rep); continue
+        nap, npt, blocks, v, y, m2p, p2m, d1, a1, d2, a2 = ii
+        fv = lambda l: [float(undy(x)) if undy(x) is not None else float('nan') for x in l]
+        B = [[None, None], [None, None]]
+        for k, b in enumerate(blocks):
+            nr, nc, rows = b
+            D = [[0.] * nc for _ in range(nr)]
+            for r, row in enumerate(rows):
+                for e in row: D[r][e[0]] = float(undy(e[1]))
+            B[k // 2][k % 2] = D
+        if c[5] == 1: B[1][0] = None
+        if c[5] == 2: B[0][1] = None
+        npts = [len(B[0][0]), len(B[1][1])]; naps = [len(B[0][0][0]) if B[0][0] else 0, len(B[1][1][0]) if B[1][1] else 0]
+        ctx.count(sx_str(c), True)
+        if nap != sum(naps) or npt != sum(npts):
+            viol('proj-multi:dimensions', 'ProjMulti has %d apices / %d points, its blocks give %d / %d' % (nap, npt, sum(naps), sum(npts)), rep); continue
+        vv, yy = fv(v), fv(y)
+        vs = [vv[:naps[0]], vv[naps[0]:]]; ys = [yy[:npts[0]], yy[npts[0]:]]
+        m_ref = []; p_ref = []
+        for bi in range(2):
+            for r in range(npts[bi]):
+                m_ref.append(sum(sum(B[bi][bj][r][a] * vs[bj][a] for a in range(naps[bj])) for bj in range(2) if B[bi][bj] is not None))
+        for bj in range(2):
+            for a in range(naps[bj]):
+                p_ref.append(sum(sum(B[bi][bj][r][a] * ys[bi][r] for r in range(npts[bi])) for bi in range(2) if B[bi][bj] is not None))
+        mm, pp = fv(m2p), fv(p2m)
+        sc = 1 + max(abs(x) for x in m_ref + p_ref)
+        if max(abs(a - b) for a, b in zip(mm, m_ref)) > 1e-11 * sc:
+            viol('proj-multi:mesh2point', 'ProjMulti::mesh2point differs from the blockwise sums A_ij v_j', rep)
+        if max(abs(a - b) for a, b in zip(pp, p_ref)) > 1e-11 * sc:
+            viol('proj-multi:point2mesh', 'ProjMulti::point2mesh differs from the blockwise sums A_ij\' y_i', rep)
+        lhs = sum(a * b for a, b in zip(mm, yy)); rhs = sum(a * b for a, b in zip(vv, pp))
+        if not abs(lhs - rhs) <= 1e-10 * (1 + abs(lhs)): viol('proj-multi:not-adjoint', '<A v, y> = %.17g but <v, A\'y> = %.17g' % (lhs, rhs), rep)
+        e1 = max(abs(a - (b + m)) for a, b, m in zip(fv(a1), fv(d1), mm)); e2 = max(abs(a - (b + m)) for a, b, m in zip(fv(a2), fv(d2), pp))
+        if e1 > 1e-10 * sc or e2 > 1e-10 * sc:
+            viol('proj-multi:add-does-not-accumulate', 'ProjMulti::addMesh2point / addPoint2mesh differ from destination + result by %.3g, %.3g' % (e1, e2), rep)
+        ctx.sample({'kind': 'multi', 'absent_block': c[5], 'nap': nap, 'npt': npt}, maxn=18)
+
 # ----------------------------------------------------------------------------- precision operators
 def gen_mesh_for_ops(rng, hv, tab, maxnodes):
     if rng.random() < .75:
@@ -643,12 +802,14 @@ def check_operators(ctx, exe, runner, hv, viol):
     hv.run(ctx, exe)
     cases = []
     for kind, m in specs:
-        cv = gen_cov(rng, m['n'])
+        cv = gen_cov(rng, m['n'], nostat=rng.random() < .35)
         nn = 64
+        if cv.get('spiral'): ctx.dist('op_nonstationary_angle')
         v = [dy(F(rng.randint(-64, 64), 16)) for _ in range(nn)]
         dst = [dy(F(rng.randint(-64, 64), 16)) for _ in range(nn)]
         cases.append([2, mesh_sx(kind, m, hv), cov_sx(cv), v, dst])
         ctx.dist('op_%s_%dd' % (kind, m['n'])); ctx.dist('op_nu_%s' % cv['param'])
+    cases = [c for c in load_corpus(ctx) if c[0] == 2] + cases
     cf = write_cases(ctx, 'ops', cases)
     rc_i, impl = run_impl(ctx, exe, cf, timeout=900)
     mcases = []; midx = []
@@ -657,16 +818,20 @@ def check_operators(ctx, exe, runner, hv, viol):
         ii = impl[i] if i < len(impl) else None
         if ii is None or (ii and ii[0] == -997):
             viol('crash:precision-op', 'the harness produced no answer (crash) while building the precision operators', {'case': sx_str(c)}); H.append(None); continue
-        n, S, lam, cf_, free, cs, train, Q, dfree, dcs, S2, lam2, cf2, v, dst0, addf, addc = ii
+        n, S, lam, cf_, free, cs, train, Q, dfree, dcs, S2, lam2, cf2, v, dst0, addf, addc, Ainv, scales, femesh, tildec, correc, sill, permesh = ii
         h = {'n': n, 'S': [[undy(x) for x in r] for r in S], 'lam': [undy(x) for x in lam], 'c': [undy(x) for x in cf_],
              'free': [undy(x) for x in free], 'cs': [undy(x) for x in cs], 'train': [undy(x) for x in train],
              'Q': [[undy(x) for x in r] for r in Q], 'dfree': [undy(x) for x in dfree], 'dcs': [undy(x) for x in dcs], 'v': [undy(x) for x in v],
              'same': S == S2 and lam == lam2 and cf_ == cf2,
-             'dst': [undy(x) for x in dst0], 'addf': [undy(x) for x in addf], 'addc': [undy(x) for x in addc]}
+             'dst': [undy(x) for x in dst0], 'addf': [undy(x) for x in addf], 'addc': [undy(x) for x in addc],
+             'Ainv': [[undy(x) for x in r] for r in Ainv], 'scales': [undy(x) for x in scales], 'femesh': femesh,
+             'tildec': [undy(x) for x in tildec], 'correc': undy(correc), 'sill': undy(sill), 'ndim': len(scales),
+             'permesh': [([[undy(x) for x in r] for r in pm_[0]], [undy(x) for x in pm_[1]]) for pm_ in permesh]}
         H.append(h)
         if any(x is None for r in h['S'] for x in r) or any(x is None for x in h['lam']):
             viol('precision-op:undefined-shift-operator', 'S or Lambda holds undefined values', {'case': sx_str(c)}); H[-1] = None; continue
         mcases.append([2, n, S, lam, cf_, v, dst0]); midx.append(i)
+    shift_model = check_shift_assembly(ctx, runner, cases, H, viol)
     model = {}
     if runner is not None and mcases:
         mf = write_cases(ctx, 'opsmodel', mcases)
@@ -734,8 +899,140 @@ def check_operators(ctx, exe, runner, hv, viol):
                  'correspondence coq/C15/ModelOp.v no longer checks' % (d1, d2, dQ, scale), rep, found=False)
         ctx.sample({'kind': 'operator', 'n': n, 'coeffs': [float(x) for x in h['c']], 'free_vs_model': d1, 'assembled_vs_model': d2, 'scale': scale}, maxn=8)
 
+def fe_assemble(nd, n, femesh, params):
+    """stiffness sum_k vol_k grad(phi_a)' H_k grad(phi_b) / sqrt(det H_k) and lumped mass vol_k / (nd+1) / sqrt(det H_k), in floating point"""
+    S = [[0.] * n for _ in range(n)]; C = [0.] * n
+    for (ap, cs), (A_, sc_) in zip(femesh, params):
+        Hk = [[sum(float(A_[k][a]) * float(sc_[k]) ** 2 * float(A_[k][b]) for k in range(nd)) for b in range(nd)] for a in range(nd)]
+        P = [[float(undy(x)) for x in c] for c in cs]
+        # gradients of the barycentric functions: rows of the inverse of [x_c ; 1]
+        Mx = [[P[c][d] for c in range(nd + 1)] for d in range(nd)] + [[1.] * (nd + 1)]
+        G = [solve_float(Mx, [1. if r == d else 0. for r in range(nd + 1)]) for d in range(nd)]     # G[d][c] = d(lambda_c)/dx_d
+        E = [[P[k][d] - P[nd][d] for d in range(nd)] for k in range(nd)]
+        if nd == 1: dm = E[0][0]; dh = Hk[0][0]
+        elif nd == 2: dm = E[0][0] * E[1][1] - E[0][1] * E[1][0]; dh = Hk[0][0] * Hk[1][1] - Hk[0][1] * Hk[1][0]
+        else:
+            det3 = lambda M_: (M_[0][0] * (M_[1][1] * M_[2][2] - M_[1][2] * M_[2][1]) - M_[0][1] * (M_[1][0] * M_[2][2] - M_[1][2] * M_[2][0])
+                               + M_[0][2] * (M_[1][0] * M_[2][1] - M_[1][1] * M_[2][0]))
+            dm = det3(E); dh = det3(Hk)
+        vol = abs(dm) / math.factorial(nd) / math.sqrt(dh)
+        for a in range(nd + 1):
+            C[ap[a]] += vol / (nd + 1)
+            for b in range(nd + 1):
+                S[ap[a]][ap[b]] += vol * sum(G[d][a] * Hk[d][e] * G[e][b] for d in range(nd) for e in range(nd))
+    return S, C
+
+def check_shift_assembly(ctx, runner, cases, H, viol):
+    """finite-element assembly of S / TildeC / Lambda from the anisotropy and the mesh, and the Markov coefficients:
+    model (exact, kinds 6 and 7) vs the harvested S, TildeC, Lambda, coefficients; mass property on impl"""
+    mc = []; idx = []
+    for i, h in enumerate(H):
+        if h is None: continue
+        nd = h['ndim']; A = h['Ainv']; sc = h['scales']
+        Hh = [[sum(A[k][a] * sc[k] * sc[k] * A[k][b] for k in range(nd)) for b in range(nd)] for a in range(nd)]
+        if nd == 1: det = Hh[0][0]
+        elif nd == 2: det = Hh[0][0] * Hh[1][1] - Hh[0][1] * Hh[1][0]
+        else: det = (Hh[0][0] * (Hh[1][1] * Hh[2][2] - Hh[1][2] * Hh[2][1]) - Hh[0][1] * (Hh[1][0] * Hh[2][2] - Hh[1][2] * Hh[2][0])
+                     + Hh[0][2] * (Hh[1][0] * Hh[2][1] - Hh[1][1] * Hh[2][0]))
+        h['rt'] = F(math.sqrt(1. / float(det)))
+        h['dethh'] = det
+        def det_of(A_, sc_):
+            Hk = [[sum(A_[k][a] * sc_[k] * sc_[k] * A_[k][b] for k in range(nd)) for b in range(nd)] for a in range(nd)]
+            if nd == 1: return Hk[0][0]
+            if nd == 2: return Hk[0][0] * Hk[1][1] - Hk[0][1] * Hk[1][0]
+            return (Hk[0][0] * (Hk[1][1] * Hk[2][2] - Hk[1][2] * Hk[2][1]) - Hk[0][1] * (Hk[1][0] * Hk[2][2] - Hk[1][2] * Hk[2][0])
+                    + Hk[0][2] * (Hk[1][0] * Hk[2][1] - Hk[1][1] * Hk[2][0]))
+        if h['permesh']:
+            h['rts'] = [F(math.sqrt(1. / float(det_of(A_, sc_)))) for A_, sc_ in h['permesh']]
+            mc.append([12, nd, h['n'], [[[[dy(x) for x in r] for r in A_], [dy(x) for x in sc_], dy(rt_)] for (A_, sc_), rt_ in zip(h['permesh'], h['rts'])],
+                       h['femesh']]); idx.append(i)
+        else:
+            h['rts'] = None
+            mc.append([6, nd, h['n'], [[dy(x) for x in r] for r in A], [dy(x) for x in sc], dy(h['rt']), h['femesh']]); idx.append(i)
+        # Markov coefficients: p = nu + ndim/2
+        nu = undy(cases[i][2][0]); p = nu + F(nd, 2)
+        h['p'] = int(p) if p.denominator == 1 else None
+        mc.append([7, h['p'] if h['p'] is not None else 0]); idx.append(i)
+        # ---- property on impl: the lumped masses are positive and add up to rt x (volume of the meshing)
+        nfac = math.factorial(nd)
+        vol = F(0); wvol = 0.
+        for km_, (ap, cs) in enumerate(h['femesh']):
+            P = [[undy(x) for x in c] for c in cs]
+            E = [[P[k][d] - P[nd][d] for d in range(nd)] for k in range(nd)]
+            if nd == 1: dm = E[0][0]
+            elif nd == 2: dm = E[0][0] * E[1][1] - E[0][1] * E[1][0]
+            else: dm = (E[0][0] * (E[1][1] * E[2][2] - E[1][2] * E[2][1]) - E[0][1] * (E[1][0] * E[2][2] - E[1][2] * E[2][0])
+                        + E[0][2] * (E[1][0] * E[2][1] - E[1][1] * E[2][0]))
+            vol += abs(dm) / nfac
+            wvol += float(abs(dm) / nfac) * float(h['rts'][km_] if h['rts'] else h['rt'])
+        h['vol'] = vol
+        # ---- property on impl: S and TildeC are the finite-element matrices (independent evaluation in floating point)
+        if all(x > 0 for x in h['tildec']):
+            Sfe, Cfe = fe_assemble(nd, h['n'], h['femesh'], h['permesh'] if h['permesh'] else [(A, sc)] * len(h['femesh']))
+            sqc = [math.sqrt(float(x)) for x in h['tildec']]
+            dfe = max(abs(float(h['S'][a][b]) * sqc[a] * sqc[b] - Sfe[a][b]) for a in range(h['n']) for b in range(h['n']))
+            gmax = max(abs(x) for r in Sfe for x in r) or 1.
+            cfe = max(abs(float(h['tildec'][a]) - Cfe[a]) / Cfe[a] for a in range(h['n']))
+            if dfe > 1e-9 * gmax or cfe > 1e-9:
+                viol('shiftop:not-the-finite-element-matrices', 'S / TildeC differ from the finite-element stiffness and lumped mass of the meshing with the '
+                     'anisotropy of each mesh: stiffness %.3g (max %.3g), mass %.3g (relative)' % (dfe, gmax, cfe), {'case': sx_str(cases[i])})
+        mass = sum(float(x) for x in h['tildec'])
+        want = wvol
+        rep = {'case': sx_str(cases[i]), 'sum_TildeC': mass, 'sqrt(1/det H) x volume': want}
+        if any(x <= 0 for x in h['tildec']): viol('shiftop:lumped-mass-not-positive', 'an entry of TildeC is not positive', rep)
+        # S = D G D with D = TildeC^-1/2: S symmetric (to rounding) and constants in the kernel of G, i.e. S . sqrt(TildeC) = 0
+        nn = h['n']; Sx = h['S']; sq = [math.sqrt(float(x)) for x in h['tildec']] if all(x > 0 for x in h['tildec']) else None
+        smax_ = max(abs(float(x)) for row in Sx for x in row) or 1.
+        asym_ = max(abs(float(Sx[a][b]) - float(Sx[b][a])) for a in range(nn) for b in range(nn))
+        if asym_ > 1e-12 * smax_: viol('shiftop:S-not-symmetric', 'the shift operator S is not symmetric: largest |S_ij - S_ji| = %.3g (max |S_ij| = %.3g)' % (asym_, smax_), rep)
+        if sq:
+            ker = max(abs(sum(float(Sx[a][b]) * sq[b] for b in range(nn))) for a in range(nn))
+            if ker > 1e-10 * smax_ * max(sq) * nn:
+                viol('shiftop:constants-not-in-kernel', 'S . sqrt(TildeC) should vanish (row sums of the stiffness matrix): largest entry %.3g' % ker, rep)
+        if abs(mass - want) > 1e-9 * want:
+            viol('shiftop:lumped-mass-not-the-mesh-volume:%dd' % nd, 'the lumped masses TildeC add up to %.12g, the volume of the meshing (in the metric of the '
+                 'model) is %.12g: ratio %.6g (ShiftOpCs::_buildS divides by 6 and 2 whatever the dimension)' % (mass, want, mass / want), rep)
+    out = {}
+    if runner is None or not mc: return out
+    mf = write_cases(ctx, 'shiftmodel', mc)
+    rc_m, mres = run_model(ctx, runner, mf)
+    if len(mres) != len(mc): print('ERROR: model runner returned %d results for %d assembly cases' % (len(mres), len(mc))); sys.exit(3)
+    for (i, c, r) in zip(idx, mc, mres):
+        h = H[i]; rep = {'case': sx_str(cases[i]), 'model_case': sx_str(c)[:2000]}
+        if r and r[0] == -999: print('ERROR: model rejected an assembly case'); sys.exit(3)
+        if c[0] == 7:
+            if h['p'] is None: continue
+            mco = [unq(x) for x in r[0]]
+            # ut_cnp evaluates the binomial coefficients in floating point (3.0000000000000004 for C(3,1)): compared to 1e-12
+            if len(mco) != len(h['c']) or any(abs(float(a) - float(b)) > 1e-12 * float(a) for a, b in zip(mco, h['c'])):
+                viol('precision-op:markov-coefficients', 'the polynomial coefficients of the precision operator are %s, the binomial coefficients of (1+x)^%d are %s'
+                     % ([float(x) for x in h['c']], h['p'], [float(x) for x in mco]), rep)
+            continue
+        if r[0] != 1:
+            viol('model-drift:shiftop:degenerate-element', 'the model cannot invert an element matrix of a meshing the library accepts', rep, found=False); continue
+        n = h['n']
+        Sraw = [[unq(x) for x in row] for row in r[1]]; tc = [unq(x) for x in r[2]]
+        out[i] = (Sraw, tc)
+        # exact structural facts of the model output (the theorems, observed)
+        if any(Sraw[a][b] != Sraw[b][a] for a in range(n) for b in range(n)) or any(sum(Sraw[a]) != 0 for a in range(n)):
+            viol('model-internal:shiftop', 'the modelled stiffness matrix is not symmetric with vanishing row sums', rep, found=False)
+        # correspondence
+        dt = max(abs(float(h['tildec'][a]) - float(tc[a])) / float(tc[a]) for a in range(n))
+        dS = 0.; smax = max(abs(float(x)) for row in h['S'] for x in row)
+        for a in range(n):
+            for b in range(n):
+                dS = max(dS, abs(float(h['S'][a][b]) - float(Sraw[a][b]) / math.sqrt(float(tc[a]) * float(tc[b]))))
+        dl = max(abs(float(h['lam'][a]) - math.sqrt(float(tc[a]) * float(h['correc']) / float(h['sill']))) / float(h['lam'][a]) for a in range(n))
+        if dt > 1e-10 or dS > 1e-10 * smax or dl > 1e-10:
+            which = 'TildeC' if dt > 1e-10 else ('S' if dS > 1e-10 * smax else 'Lambda')
+            viol('model-drift:shiftop:' + which, 'harvested and modelled assembly differ: TildeC %.3g (relative), S %.3g (max |S| %.3g), Lambda %.3g (relative): '
+                 'correspondence coq/C15/ModelShift.v vs ShiftOpCs::_buildS / _buildLambda no longer checks' % (dt, dS, smax, dl), rep, found=False)
+        ctx.count(sx_str(c)[:400], True)
+        ctx.sample({'kind': 'assembly', 'n': n, 'ndim': h['ndim'], 'TildeC_rel': dt, 'S_abs': dS, 'Lambda_rel': dl}, maxn=10)
+    return out
+
 # ----------------------------------------------------------------------------- solvers (runtime evidence)
-def check_solvers(ctx, exe, hv, viol):
+def check_solvers(ctx, exe, runner, hv, viol):
     quick = ctx.quick(); rng = ctx.rng
     ncase = 16 if quick else 150
     specs = []
@@ -759,12 +1056,29 @@ def check_solvers(ctx, exe, hv, viol):
         ctx.dist('solve_%dd' % ts['n'])
     cf = write_cases(ctx, 'solve', cases)
     rc_i, impl = run_impl(ctx, exe, cf, timeout=900)
+    # exact kriging system in the model: A from the model's own projection, Q = Lambda P(S) Lambda from the harvested S, Lambda
+    kmodel = {}
+    if runner is not None:
+        kc = []; kidx = []
+        nmax = 26 if quick else 40
+        for i, c in enumerate(cases):
+            ii = impl[i] if i < len(impl) else None
+            if ii is None or ii[0] == -997 or ii[0] > nmax: continue
+            nd_ = ii[1]
+            kc.append([8] + c[1][1:7] + [c[3], ii[0], ii[-5], ii[-4], ii[-3], [c[5]] * nd_, c[4]]); kidx.append(i)
+        if kc:
+            kf = write_cases(ctx, 'krigmodel', kc)
+            rc_m, kres = run_model(ctx, runner, kf, jobs=min(NPROC, len(kc)))
+            if len(kres) != len(kc): print('ERROR: model runner returned %d results for %d kriging cases' % (len(kres), len(kc))); sys.exit(3)
+            for i, r in zip(kidx, kres):
+                if r and r[0] == -999: print('ERROR: model rejected a kriging case'); sys.exit(3)
+                kmodel[i] = r
     for i, c in enumerate(cases):
         ii = impl[i] if i < len(impl) else None
         rep = {'case': sx_str(c)}
         if ii is None or (ii and ii[0] == -997):
             viol('crash:spde-solve', 'the harness produced no answer (crash) on a conditional solve', rep); continue
-        n, ndat, Q, A, rhs, xc, xf, qc, qf, ldc, y1, kc, kf, q1, q0, ld1, var_api, ll1, ll0, Aout, ncg, kn1, kn0, var_new = ii
+        n, ndat, Q, A, rhs, xc, xf, qc, qf, ldc, y1, kc, kf, q1, q0, ld1, var_api, ll1, ll0, Aout, ncg, kn1, kn0, var_new, Sd, lamd, cfd, m2p, p2m = ii
         Q = [[float(undy(x)) for x in r] for r in Q]
         var = float(undy(c[5])); z = [float(undy(x)) for x in c[4]]
         Ad = [[0.] * n for _ in range(ndat)]
@@ -822,7 +1136,13 @@ def check_solvers(ctx, exe, hv, viol):
         ks = 1 + max(abs(x) for x in k_ref)
         if max(abs(x - y) for x, y in zip(kcv, k_ref)) > 1e-8 * ks:
             viol('spde-kriging:cholesky', 'krigingSPDE (Cholesky) differs from A_out (Q + A\'A/s2)^-1 A\'z/s2 by %.3g' % max(abs(x - y) for x, y in zip(kcv, k_ref)), rep)
-        if max(abs(x - y) for x, y in zip(kfv, k_ref)) > 2e-3 * ks:
+        # the API's conjugate gradient stops when |r|^2 <= 1e-8 |b|: the error on x is at most |M^-1| |r|
+        inva = [solve_float(Ma, [1. if a == k else 0. for a in range(n)]) for k in range(n)]
+        ninva = max(sum(abs(inva[k][a]) for k in range(n)) for a in range(n))
+        nba = math.sqrt(sum(x * x for x in ba))
+        amax = max([sum(abs(x) for x in r) for r in Ao] + [1.])
+        tol_cg = 3 * amax * ninva * 1e-4 * math.sqrt(nba) + 1e-8 * ks
+        if max(abs(x - y) for x, y in zip(kfv, k_ref)) > tol_cg:
             viol('spde-kriging:cg', 'krigingSPDE (conjugate gradient) differs from the Cholesky result by %.3g' % max(abs(x - y) for x, y in zip(kfv, kcv)), rep)
         # krigingSPDENew (SPDEOpMatrix / matrix-free SPDEOp with Eigen CG, tolerance 1e-5): same system with the nugget as data variance
         s2n = float(undy(var_new))
@@ -833,8 +1153,48 @@ def check_solvers(ctx, exe, hv, viol):
         kn0v = [float(undy(x)) if undy(x) is not None else float('nan') for x in kn0]
         if len(kn1v) != nout or not max(abs(x - y) for x, y in zip(kn1v, kn_ref)) <= 1e-8 * kns:
             viol('spde-kriging-new:cholesky', 'krigingSPDENew (Cholesky) %s differs from A_out (Q + A\'A/s2)^-1 A\'z/s2 = %s' % (kn1v, kn_ref), rep)
-        if len(kn0v) != nout or not max(abs(x - y) for x, y in zip(kn0v, kn_ref)) <= 2e-3 * kns:
+        # Eigen's CG on SPDEOp: relative residual 1e-5
+        Mn_ = cond_matrix(s2n); bn_ = [sum(Ad[r][a] * z[r] for r in range(ndat)) / s2n for a in range(n)]
+        invn = [solve_float(Mn_, [1. if a == k else 0. for a in range(n)]) for k in range(n)]
+        ninvn = max(sum(abs(invn[k][a]) for k in range(n)) for a in range(n))
+        tol_new = 3 * amax * ninvn * 1e-5 * math.sqrt(sum(x * x for x in bn_)) + 1e-8 * kns      # |r| <= 1e-5 |b|
+        if len(kn0v) != nout or not max(abs(x - y) for x, y in zip(kn0v, kn_ref)) <= tol_new:
             viol('spde-kriging-new:matrix-free-vs-cholesky', 'krigingSPDENew through the matrix-free solver gives %s, through Cholesky %s' % (kn0v, kn1v), rep)
+        # ---- the projection matrix applied both ways (mesh2point / point2mesh are adjoint), on impl
+        lamf = [float(undy(x)) for x in lamd]; m2pf = [float(undy(x)) for x in m2p]; p2mf = [float(undy(x)) for x in p2m]
+        m2p_ref = [sum(Ad[r][a] * lamf[a] for a in range(n)) for r in range(ndat)]
+        p2m_ref = [sum(Ad[r][a] * z[r] for r in range(ndat)) for a in range(n)]
+        sc_ = 1 + max(abs(x) for x in lamf) + max(abs(x) for x in z)
+        if max(abs(x - y) for x, y in zip(m2pf, m2p_ref)) > 1e-12 * sc_: viol('proj-matrix:mesh2point', 'mesh2point(v) differs from the rows applied to v', rep)
+        if max(abs(x - y) for x, y in zip(p2mf, p2m_ref)) > 1e-12 * sc_: viol('proj-matrix:point2mesh', 'point2mesh(y) differs from the transposed rows applied to y', rep)
+        lhs_ = sum(m2pf[r] * z[r] for r in range(ndat)); rhs_ = sum(lamf[a] * p2mf[a] for a in range(n))
+        if abs(lhs_ - rhs_) > 1e-11 * (1 + abs(lhs_)): viol('proj-matrix:not-adjoint', '<A v, y> = %.17g but <v, A\'y> = %.17g' % (lhs_, rhs_), rep)
+        # ---- both solutions against the exact solution of the model
+        if i in kmodel:
+            km = kmodel[i]
+            if km[0][0] != 1:
+                viol('model-drift:kriging-system-singular', 'the model finds the kriging system singular', rep, found=False)
+            else:
+                zm = [float(unq(x)) for x in km[0][1]]
+                m2pm = [float(unq(x)) for x in km[1]]; p2mm = [float(unq(x)) for x in km[2]]; rhsm = [float(unq(x)) for x in km[3]]
+                impl_apply_ok = max(abs(x - y) for x, y in zip(m2pf, m2p_ref)) <= 1e-12 * sc_ and max(abs(x - y) for x, y in zip(p2mf, p2m_ref)) <= 1e-12 * sc_
+                if impl_apply_ok and (max(abs(x - y) for x, y in zip(m2pf, m2pm)) > 1e-10 * sc_ or max(abs(x - y) for x, y in zip(p2mf, p2mm)) > 1e-10 * sc_):
+                    viol('model-drift:proj-matrix-apply', 'mesh2point / point2mesh differ between impl and model', rep, found=False)
+                if max(abs(x - y) for x, y in zip(b, b_ref)) <= 1e-10 * (1 + nb) and max(abs(x - y) for x, y in zip(b, rhsm)) > 1e-10 * (1 + nb):
+                    viol('model-drift:kriging-rhs', 'computeRhs differs from the model\'s A\'(y/s2)', rep, found=False)
+                # conditioning of the system (infinity norm) from the explicit inverse
+                invcols = [solve_float(Mm, [1. if a == k else 0. for a in range(n)]) for k in range(n)]
+                ninv = max(sum(abs(invcols[k][a]) for k in range(n)) for a in range(n))
+                cond = mn * ninv
+                zs = 1 + max(abs(x) for x in zm)
+                ec = max(abs(x - y) for x, y in zip(xcv, zm)); ef = max(abs(x - y) for x, y in zip(xfv, zm))
+                if ec > 1e-12 * cond * zs + 1e-13 * zs:
+                    viol('spde-solve:cholesky-vs-exact-solution', 'the Cholesky solution differs from the exact solution of (Q + A\'A/s2) z = A\'y/s2 by %.3g '
+                         '(condition number %.3g)' % (ec, cond), rep)
+                if ef > 10 * ninv * rf + 1e-12 * cond * zs:
+                    viol('spde-solve:cg-vs-exact-solution', 'the conjugate-gradient solution differs from the exact solution by %.3g, the residual %.3g and '
+                         '|M^-1| = %.3g explain %.3g' % (ef, rf, ninv, ninv * rf), rep)
+                ctx.sample({'kind': 'kriging-exact', 'n': n, 'cond': cond, 'cholesky_vs_exact': ec, 'cg_vs_exact': ef}, maxn=14)
         q1v, q0v = float(undy(q1)), float(undy(q0))
         if abs(q1v - q0v) > 2e-3 * (1 + abs(q1v)): viol('spde-likelihood:quadratic-term', 'quadratic term of the likelihood: Cholesky %.12g, CG %.12g' % (q1v, q0v), rep)
         ctx.count(sx_str(c), True)
